@@ -1,0 +1,11 @@
+//go:build verif
+
+package ssh
+
+import "golang.org/x/crypto/ssh/internal/bcrypt_pbkdf"
+
+// VerifBcryptPBKDF re-exports ssh/internal/bcrypt_pbkdf.Key (build tag "verif"
+// only; add-only file, see /verif/harness/README.md).
+func VerifBcryptPBKDF(password, salt []byte, rounds, keyLen int) ([]byte, error) {
+	return bcrypt_pbkdf.Key(password, salt, rounds, keyLen)
+}
